@@ -84,6 +84,10 @@ def pround (x : Float) : Int :=
 @[inline] def plt (x y : Float) : Bool := x < y
 @[inline] def ple (x y : Float) : Bool := x ≤ y
 
+/-- `math.fsum(l)` for finite doubles whose exact sum is in range: the exact sum (in ℚ), rounded
+    once to nearest-even. -/
+def pfsum (l : List Float) : Float := ofRat (l.foldl (fun s v => s + toRat v) 0)
+
 def pshow (x : Float) : String := s!"f{x.toBits.toNat}"
 
 end Pymeeus.PF
